@@ -400,9 +400,29 @@ func (c *connectionRequest) internalConnect(ctx context.Context) (result *connec
 	}
 
 	conn := newServerConnection(server, c.previousServer, c.player)
-	c.player.setInFlightConnection(conn)
+	// Check again and take the in-flight slot in one critical section: two concurrent
+	// requests must not both pass checkServer before either of them sets the slot.
+	if status, ok = c.checkAndSetInFlight(newDest, conn); !ok {
+		return plainConnectionResult(status, newDest), nil
+	}
 	defer c.resetIfInFlightIs(conn)
 	return conn.connect(ctx)
+}
+
+// checkAndSetInFlight is checkServer followed by setInFlightConnection under one lock.
+func (c *connectionRequest) checkAndSetInFlight(server RegisteredServer, conn *serverConnection) (s ConnectionStatus, ok bool) {
+	p := c.player
+	p.mu.Lock()
+	defer p.mu.Unlock()
+	if p.connInFlight != nil || (p.connectedServer_ != nil &&
+		!p.connectedServer_.completedJoin.Load()) {
+		return InProgressConnectionStatus, false
+	}
+	if p.connectedServer_ != nil && RegisteredServerEqual(p.connectedServer_.Server(), server) {
+		return AlreadyConnectedConnectionStatus, false
+	}
+	p.connInFlight = conn
+	return 0, true
 }
 
 func (c *connectionRequest) resetIfInFlightIs(establishedConnection *serverConnection) {
